@@ -708,7 +708,7 @@ func main() {
 	// 4. random larger lists over a wider universe, with a related partner
 	nRandom, nParse, nExpr := 500, 600, 300
 	if thorough {
-		nRandom, nParse, nExpr = 20000, 20000, 10000
+		nRandom, nParse, nExpr = 12000, 12000, 6000
 	}
 	for i := 0; i < nRandom; i++ {
 		clean := rnd.Intn(3) == 0
